@@ -140,7 +140,7 @@ _res_common = dict(
     _t(tier, ["-sample", "250"], ["-sample", "6000", "-variants", "2"]),
     trace=("Trace_Resource", "Trace_Resource.cfg"),
     required=["New:ok", "Set:ok", "SetID:ok", "Copy:ok", "NewLike:ok", "TypeCopy:ok", "MutSlice:ok", "Marshal:ok",
-              "Filter:ok", "AddField:ok", "RemoveField:ok", "Equal:soft-soft", "Equal:soft-wrap", "Equal:wrap-soft",
+              "Filter:ok", "AddField:ok", "RemoveField:ok", "after-making:Copy", "after-making:NewLike", "after-making:TypeCopy", "Equal:soft-soft", "Equal:soft-wrap", "Equal:wrap-soft",
               "Equal:wrap-wrap"],
     assumptions=["Set values are well-typed (typed or untyped nil only for nullable kinds)",
                  "to-many relationships are compared as sets by the equality laws",
@@ -322,7 +322,7 @@ _url_common = dict(
     driver=lambda tier, seed, gen, out: ["url", "-gen", gen, "-out", out, "-seed", str(seed)] +
     _t(tier, ["-n", "3000", "-mut", "800"], ["-n", "400000", "-mut", "100000"]),
     trace=("Trace_URL", "Trace_URL.cfg"),
-    required=["url:ok", "url:err", "url:include-kept", "url:collection", "chain", "chain:special", "mutated"],
+    required=["url:ok", "url:err", "url:include-kept", "url:collection", "chain", "chain:special", "mutated", "stray-dot"],
     assumptions=["fixed schema: ta (2 attributes, relationships r and rs - one a string prefix of the other - and t), tb, tc "
                  "without any field, and td whose relationship q has the name of tb's and another target; soft or struct-backed", "request tokens are obtained from generated text with net/url"],
     coverage=False,
